@@ -1,7 +1,8 @@
 use crate::ast::{BinaryOp, Commented, Expr, RecordEntry, RecordKey, SpannedExpr};
+use crate::ast::{PostfixOp, UnaryOp};
 use crate::ast_to_source::{
     expr_to_source, format_record_key, lambda_body_needs_parens, needs_parens_as_callee,
-    needs_parens_in_binop,
+    needs_parens_as_factorial_operand, needs_parens_as_prefix_operand, needs_parens_in_binop,
 };
 use crate::values::LambdaArg;
 
@@ -37,6 +38,12 @@ fn format_expr_impl(expr: &SpannedExpr, max_cols: usize, indent: usize) -> Strin
         return format_multiline(expr, max_cols, indent);
     }
 
+    // Comments can only be printed by the multi-line layouts: an expression that carries one
+    // anywhere inside (e.g. in a list that is indexed or negated) must not be flattened.
+    if contains_comments(expr) {
+        return format_multiline(expr, max_cols, indent);
+    }
+
     // First, try single-line formatting using our custom formatter
     let single_line = format_single_line(expr);
 
@@ -52,6 +59,53 @@ fn format_expr_impl(expr: &SpannedExpr, max_cols: usize, indent: usize) -> Strin
 
     // Otherwise, apply smart multi-line formatting based on expression type
     format_multiline(expr, max_cols, indent)
+}
+
+/// Does any list item, record entry or do-block statement inside `expr` carry a comment?
+fn contains_comments(expr: &SpannedExpr) -> bool {
+    match &expr.node {
+        Expr::List(items) => items
+            .iter()
+            .any(|item| item.has_comments() || contains_comments(&item.node)),
+        Expr::Record(entries) => entries.iter().any(|entry| {
+            entry.has_comments()
+                || contains_comments(&entry.node.value)
+                || match &entry.node.key {
+                    RecordKey::Dynamic(key) | RecordKey::Spread(key) => contains_comments(key),
+                    _ => false,
+                }
+        }),
+        Expr::DoBlock {
+            statements,
+            return_expr,
+        } => {
+            statements
+                .iter()
+                .any(|stmt| stmt.has_comments() || contains_comments(&stmt.node))
+                || return_expr.has_comments()
+                || contains_comments(&return_expr.node)
+        }
+        Expr::Lambda { body, .. } => contains_comments(body),
+        Expr::Conditional {
+            condition,
+            then_expr,
+            else_expr,
+        } => {
+            contains_comments(condition)
+                || contains_comments(then_expr)
+                || contains_comments(else_expr)
+        }
+        Expr::Assignment { value, .. } => contains_comments(value),
+        Expr::Output { expr } => contains_comments(expr),
+        Expr::Call { func, args } => contains_comments(func) || args.iter().any(contains_comments),
+        Expr::Access { expr, index } => contains_comments(expr) || contains_comments(index),
+        Expr::DotAccess { expr, .. } => contains_comments(expr),
+        Expr::BinaryOp { left, right, .. } => contains_comments(left) || contains_comments(right),
+        Expr::UnaryOp { expr, .. } | Expr::PostfixOp { expr, .. } | Expr::Spread(expr) => {
+            contains_comments(expr)
+        }
+        _ => false,
+    }
 }
 
 /// Format an expression on a single line (respecting our formatting rules)
@@ -157,6 +211,54 @@ fn format_multiline(expr: &SpannedExpr, max_cols: usize, indent: usize) -> Strin
             statements,
             return_expr,
         } => format_do_block_multiline(statements, return_expr, max_cols, indent),
+        Expr::Access {
+            expr: target,
+            index,
+        } => {
+            let target_str = format_expr_impl(target, max_cols, indent);
+            let target_str = if needs_parens_as_callee(target) {
+                format!("({})", target_str)
+            } else {
+                target_str
+            };
+            format!("{}[{}]", target_str, format_expr_impl(index, max_cols, indent))
+        }
+        Expr::DotAccess {
+            expr: target,
+            field,
+        } => {
+            let target_str = format_expr_impl(target, max_cols, indent);
+            if needs_parens_as_callee(target) {
+                format!("({}).{}", target_str, field)
+            } else {
+                format!("{}.{}", target_str, field)
+            }
+        }
+        Expr::UnaryOp { op, expr: operand } => {
+            let op_str = match op {
+                UnaryOp::Negate => "-",
+                UnaryOp::Not => "!",
+                UnaryOp::Invert => "~",
+            };
+            let operand_str = format_expr_impl(operand, max_cols, indent);
+            if needs_parens_as_prefix_operand(operand) {
+                format!("{}({})", op_str, operand_str)
+            } else {
+                format!("{}{}", op_str, operand_str)
+            }
+        }
+        Expr::PostfixOp { op, expr: operand } => {
+            let op_str = match op {
+                PostfixOp::Factorial => "!",
+            };
+            let operand_str = format_expr_impl(operand, max_cols, indent);
+            if needs_parens_as_factorial_operand(operand) {
+                format!("({}){}", operand_str, op_str)
+            } else {
+                format!("{}{}", operand_str, op_str)
+            }
+        }
+        Expr::Spread(inner) => format!("...{}", format_expr_impl(inner, max_cols, indent)),
         // For other expression types, fall back to single-line
         _ => expr_to_source(expr),
     }
